@@ -158,11 +158,12 @@ Proof.
 Qed.
 
 Lemma np_retry_loop visit ne cr : (forall e, no_panic (visit e)) ->
-  forall f es, no_panic (Match.retry_loop visit ne cr f es).
+  forall f app es, no_panic (Match.retry_loop visit ne cr app f es).
 Proof.
-  intros Hv. induction f as [|f IH]; intros es; cbn; [discriminate|].
+  intros Hv. induction f as [|f IH]; intros app es; cbn; [discriminate|].
   apply np_bind; [apply np_visit_elems; auto|].
-  intros r. destruct (snd r); [|discriminate]. destruct cr; [apply IH|discriminate].
+  intros r. destruct (snd r); [|discriminate]. destruct cr; [|discriminate].
+  match goal with |- no_panic (if ?b then _ else _) => destruct b end; [discriminate|apply IH].
 Qed.
 
 (* PathMatcher never panics: any path, document, Create kind and retry budget *)
@@ -179,8 +180,8 @@ Proof.
       * apply np_bind; [apply IH|discriminate].
       * destruct (nth_error es i); [|discriminate]. apply np_bind; [apply IH|discriminate].
   - destruct (split_index_name_value raw) as [[fld v]|]; [|discriminate].
-    match goal with |- context [Match.retry_loop ?vis ?ne ?cr] =>
-      assert (R : forall f es, no_panic (Match.retry_loop vis ne cr f es)) end.
+    match goal with |- context [Match.retry_loop ?vis ?ne ?cr _] =>
+      assert (R : forall f app es, no_panic (Match.retry_loop vis ne cr app f es)) end.
     { apply np_retry_loop. intros e. apply np_bind.
       - unfold Match.elem_regex. destruct (Regex.render _ _); [|discriminate].
         destruct (parse _); discriminate.
